@@ -177,10 +177,7 @@ namespace {
       Rng rng { seed };
       for (int run = 0; run < runs; ++run) {
          Interp in;
-         auto init = Value::object();
-         auto cs = Value::array();
-         for (int c : in.w.consts) cs.push(c);
-         init.set("op", "init").set("a", cs).set("q", 0).set("w", "").set("out", "ok").set("r", 0).set("o", Interp::no_obs());
+         auto init = init_event(in);
          std::cout << vj::dump(init) << "\n";
          // repeat earlier requests with some probability so that hits are as frequent as misses
          std::vector<Value> past;
@@ -248,10 +245,7 @@ namespace {
       std::unique_ptr<Interp> in;
       auto start = [&]() {
          in = std::make_unique<Interp>();
-         auto init = Value::object();
-         auto cs = Value::array();
-         for (int c : in->w.consts) cs.push(c);
-         init.set("op", "init").set("a", cs).set("q", 0).set("w", "").set("out", "ok").set("r", 0).set("o", Interp::no_obs());
+         auto init = init_event(*in);
          std::cout << vj::dump(init) << "\n";
       };
       start();
